@@ -499,6 +499,34 @@ pub async fn record() {
         writeln!(f, "{}", json!({"ev": "roundtrip", "type": "Nested", "sent": digest(v.name.as_bytes()), "ok": r.is_ok(),
                                  "replyEqualsSent": same, "handlerRuns": 1})).unwrap();
     }
+    // messages that carry one large collection of elements which themselves own memory (strings): the serializer's working
+    // memory grows with the number of elements, not with the bytes; counts around the powers of two and around thirds of them.
+    // Each exchange runs in a task of its own so that a panic inside the client is a failed round trip, not the harness's end.
+    {
+        let mut counts: Vec<usize> = vec![6, 100, 341, 342, 682, 683, 1365, 1366, 2730, 2731, 20_000];
+        for b in [256usize, 512, 1024, 2048, 4096, 8192, 16_384] {
+            counts.extend([b - 1, b, b + 1]);
+        }
+        for (i, n) in counts.into_iter().enumerate() {
+            let v = Nested {
+                name: format!("collection-of-{n}"),
+                items: (0..n as u64).map(|k| Inner { k, v: if (k + i as u64) % 3 == 0 { String::new() } else { format!("item-{k}") } }).collect(),
+                opt: Some(n as u32),
+            };
+            let client = next_client().clone();
+            let before = runs.load(Ordering::SeqCst);
+            let sent = v.clone();
+            let r = tokio::spawn(async move { client.send(&sent).await.map(|view| view.deserialize_view().map(|b: Nested| b == sent).unwrap_or(false)) }).await;
+            let after = runs.load(Ordering::SeqCst);
+            let (ok, same) = match r {
+                Ok(Ok(same)) => (true, same),
+                _ => (false, false),
+            };
+            rt += 1;
+            writeln!(f, "{}", json!({"ev": "roundtrip", "type": "Nested", "sent": format!("collection of {n} elements"), "ok": ok,
+                                     "replyEqualsSent": same, "handlerRuns": after - before})).unwrap();
+        }
+    }
     for v in fixed.iter() {
         let r = next_client().send(v).await;
         let same = matches!(&r, Ok(view) if view.deserialize_view().map(|b: Fixed| b == *v).unwrap_or(false));
